@@ -23,12 +23,18 @@ def key_of(e, clause):
 
 def judge(ctx, path, label):
     tr = ctx.tlc_trace("Trace_Truncate", path, xmx="3g", timeout=3000)
-    evs = vp.read_ndjson(path)
-    if tr.hwm != len(evs):
-        raise vp.Infra("Trace_Truncate consumed %s of %d fact lines" % (tr.hwm, len(evs)))
+    nlines = sum(1 for _ in open(path))
+    if tr.hwm != nlines:
+        raise vp.Infra("Trace_Truncate consumed %s of %d fact lines" % (tr.hwm, nlines))
     bad = tr.bad or []
+    want = {i for i, _ in bad}
+    evs = {}
+    if want:      # only the judged-bad lines are loaded (thorough shards hold > 10^5 lines)
+        for n, ln in enumerate(open(path), 1):
+            if n in want:
+                evs[n - 1] = json.loads(ln)
     with vp._lock:
-        ctx.traces += len(evs) - len(bad)
+        ctx.traces += nlines - len(bad)
         for i, clauses in bad:
             e = evs[i - 1]
             small = {k: v for k, v in e.items()}
@@ -45,7 +51,7 @@ def gen(ctx, binp, nshards, shards):
         s = ctx.run_json(binp, ["exec", os.path.join(r.dir, "vectors.ndjson"), facts])
         vp.absorb(ctx, s, traces=False)
         judge(ctx, facts, "gen")
-    vp.parallel([lambda sh=sh: one(sh) for sh in shards])
+    vp.parallel([lambda sh=sh: one(sh) for sh in shards], maxpar=8)
 
 
 def rec(ctx, binp, n, nproc):
@@ -54,7 +60,7 @@ def rec(ctx, binp, n, nproc):
         s = ctx.run_json(binp, ["record", facts, str(n)], env={"VERIF_SEED": str(ctx.seed * 1000 + k)})
         vp.absorb(ctx, s, traces=False)
         judge(ctx, facts, "rec")
-    vp.parallel([lambda k=k: one(k) for k in range(nproc)])
+    vp.parallel([lambda k=k: one(k) for k in range(nproc)], maxpar=8)
 
 
 def mc(ctx, full):
